@@ -46,6 +46,8 @@ def instances(tier):
                     out.append({"kind": "silent", "gen": g, "acs": n, "zpa": zp, "variant": v})
                     out.append({"kind": "extra", "gen": g, "acs": n, "zpa": zp, "variant": v})
         out.append({"kind": "timing", "gen": g, "acs": 1, "zpa": 2, "variant": "new" if g == 4 else "std"})
+        if tier == "thorough":
+            out.append({"kind": "extra", "gen": g, "acs": 2, "zpa": 2, "variant": "new" if g == 4 else "std", "two": True})
     out.append({"kind": "bitmap", "gen": 4, "acs": 2, "zpa": 2, "variant": "new"})
     for g in (4, 5):
         for v in (["new", "old"] if g == 4 else ["std"]):
@@ -225,6 +227,7 @@ def run(ctx, p):
 
     silent = None
     extra = None
+    extra2 = None
     d = 0
     delta = 0
     if kind == "silent":
@@ -237,6 +240,12 @@ def run(ctx, p):
         ek = ctx.choice("ekind", len(EXTRA_KINDS))
         pos = ctx.choice("pos", 2)
         extra = (STEPS[slot], EXTRA_KINDS[ek], "before" if pos == 0 else "after")
+        if p.get("two"):
+            # a second interleaved frame, of a solver-chosen kind, at a solver-chosen later-or-equal slot
+            slot2 = slot + ctx.choice("slot2", 6 - slot)
+            ek2 = ctx.choice("ekind2", len(EXTRA_KINDS))
+            pos2 = ctx.choice("pos2", 2)
+            extra2 = (STEPS[slot2], EXTRA_KINDS[ek2], "before" if pos2 == 0 else "after")
     elif kind == "timing":
         d = ctx.real("d", 0, 7)
         delta = ctx.real("delta", 0, 1.2)
@@ -287,6 +296,16 @@ def run(ctx, p):
                 if prev == step and pos == "before":
                     pos = "after"
             con.extra[step] = [(pos, raw)]
+            if p.get("two"):
+                step2, ek2_, pos2_ = extra2
+                raw2 = _extra_frame(p["gen"], ek2_, inst, con, step2)
+                if raw2 is None:
+                    i2 = STEPS.index(step2)
+                    prev2 = STEPS[i2 - 1] if (i2 > 0 and pos2_ == "before") else step2
+                    raw2 = con.answer_frames(prev2, {"pid": 0x5D, "data": [0xFF, 0x10, 0]})[0]
+                    if prev2 == step2 and pos2_ == "before":
+                        pos2_ = "after"
+                con.extra.setdefault(step2, []).append((pos2_, raw2))
         rig.start()
         rig.run(9.25)
         detail = {"silent": silent, "extra": extra, "requests": con.kinds()}
